@@ -169,12 +169,12 @@ class SimulationAlgorithm(BaseSimulationAlgorithm):
                 type_errors.append(
                     f"Parameter '{param}': Expected type {type_names}, given {type(value).__name__}"
                 )
-            if param == "patient_number" and value <= 0:
+            elif param == "patient_number" and value <= 0:
                 value_errors.append(
                     "Patient number (patient_number) need to be a positive integer"
                 )
 
-            if param.endswith("_std") and value < 0:
+            elif param.endswith("_std") and value < 0:
                 value_errors.append(f"Standard deviation ({param}) can't be negative")
 
         if "min_spacing_between_visits" in self.param_study:
@@ -184,7 +184,7 @@ class SimulationAlgorithm(BaseSimulationAlgorithm):
                     "Parameter 'min_spacing_between_visits': Expected type int or float, "
                     f"given {type(value).__name__}"
                 )
-            if value < 0:
+            elif value < 0:
                 value_errors.append(
                     "Parameter 'min_spacing_between_visits' cannot be negative"
                 )
